@@ -20,9 +20,7 @@ from .c01 import constructs
 from .common import Check
 
 
-class Pause:
-    def __await__(self):
-        yield self
+from .sched import drive, pause, run_schedule, run_solo
 
 
 def make_async_loader(templates: dict):
@@ -41,7 +39,7 @@ def make_async_loader(templates: dict):
                 raise TemplateNotFoundError(template_name) from err
 
         async def get_source_async(self, env, template_name, *, context=None, **kwargs):
-            await Pause()
+            await pause()
             return self.get_source(env, template_name, context=context, **kwargs)
 
     return PausingLoader()
@@ -51,21 +49,8 @@ class AsyncDrop(dict):
     """A mapping whose items are awaited lazily (one suspension per access) in async renders."""
 
     async def __getitem_async__(self, key):
-        await Pause()
+        await pause()
         return self[key]
-
-
-def drive(coro, limit: int = 100000):
-    """Run a coroutine to completion by hand; returns (result, number of suspensions)."""
-    n = 0
-    try:
-        while True:
-            coro.send(None)
-            n += 1
-            if n > limit:
-                raise RuntimeError("coroutine does not finish")
-    except StopIteration as stop:
-        return stop.value, n
 
 
 def outcome_of(fn):
@@ -110,7 +95,7 @@ def judge(rec, opts):
                 async def co():
                     t = env.from_string(templates[main], name=main)
                     return await t.render_async(**data)
-                return drive(co())[0]
+                return drive(co)
         return outcome_of(go)
 
     s, a = run("sync"), run("async")
@@ -126,7 +111,7 @@ def judge(rec, opts):
             if mode == "sync":
                 r = t.analyze()
             else:
-                r = drive(t.analyze_async())[0]
+                r = drive(t.analyze_async)
             return repr((sorted(r.variables), sorted(r.globals), sorted(r.locals), sorted(r.filters), sorted(r.tags)))
         sa, aa = outcome_of(lambda: an("sync")), outcome_of(lambda: an("async"))
         if sa != aa:
@@ -173,7 +158,7 @@ def run_schedules(chk: Check, tier: str) -> None:
         env = mk_env(caching)
         src, _, data = TASK_POOL[i]
         t = env.from_string(src, name=f"t{i}")
-        return drive(t.render_async(**data()))
+        return run_solo(lambda: t.render_async(**data()))
 
     solos = {(i, c): solo(i, c) for i in range(len(TASK_POOL)) for c in (False, True)}
     shapes = sorted({tuple(sorted((solos[(i, False)][1], solos[(j, False)][1]), reverse=True))
@@ -199,31 +184,18 @@ def run_schedules(chk: Check, tier: str) -> None:
     n = 0
     for caching in (False, True):
         for i, j in itertools.combinations_with_replacement(range(len(TASK_POOL)), 2):
-            pi, pj = solos[(i, caching)][1], solos[(j, caching)][1]
-            # with a shared cache the second task may need fewer suspensions: use the uncached shape's
-            # schedules and simply skip steps of finished tasks
+            # with a shared cache a task may need fewer suspensions than alone: the schedules of the
+            # uncached shape are used and steps of finished tasks are skipped
             shape = tuple(sorted((solos[(i, False)][1], solos[(j, False)][1]), reverse=True))
             order = (i, j) if solos[(i, False)][1] >= solos[(j, False)][1] else (j, i)
             for sched in schedules.get(shape, []):
                 env = mk_env(caching)
-                coros, results = {}, {}
+                facs = {}
                 for slot, ti in enumerate(order, start=1):
                     src, _, data = TASK_POOL[ti]
-                    t = env.from_string(src, name=f"t{ti}") if not caching else env.from_string(src, name=f"t{ti}")
-                    coros[slot] = t.render_async(**data())
-                for slot in list(sched) + [1, 2] * 50:
-                    if slot not in coros:
-                        continue
-                    try:
-                        coros[slot].send(None)
-                    except StopIteration as stop:
-                        results[slot] = stop.value
-                        del coros[slot]
-                    except Exception as e:  # noqa: BLE001
-                        results[slot] = f"raised {type(e).__name__}: {e}"
-                        del coros[slot]
-                    if not coros:
-                        break
+                    t = env.from_string(src, name=f"t{ti}")
+                    facs[slot] = (lambda t=t, data=data: t.render_async(**data()))
+                results = run_schedule(facs, list(sched))
                 n += 1
                 for slot, ti in enumerate(order, start=1):
                     want = solos[(ti, caching)][0]
@@ -245,8 +217,8 @@ def check(tier: str) -> int:
                         "TLC, Json/IOUtils modules, CPython"]
     plans = [("MC_Sites", "sites", {}, 2, 3, True), ("MC_Scopes", "scopes", {}, 2, 2, True), ("MC_Flow", "flow", {}, 1, 2, False),
              ("MC_Loops", "loops-single", {"Variant": '"single"'}, 1, 1, False), ("MC_Loops", "loops-nest", {"Variant": '"nest"'}, 2, 2, False),
-             ("MC_Exprs", "exprs", {}, 1, 2, True), ("MC_Lambda", "lambda", {}, 4, 4, False), ("MC_Undef", "undef", {}, 1, 1, False),
-             ("MC_Bool", "bool", {}, 1, 1, False)]
+             ("MC_Exprs", "exprs", {}, 1, 2, True), ("MC_Lambda", "lambda", {}, 4, 4, False), ("MC_Undef", "undef", {"Variant": '"single"'}, 1, 1, False),
+             ("MC_Bool", "bool", {"Variant": '"ops"'}, 1, 1, False)]
     for module, name, consts, q, t, analyze in plans:
         r = gen.run_focus(chk, module, name, max_top=t if tier == "thorough" else q, extra_constants=consts,
                           export="ExportInputs", invariants=(), timeout=6000)
